@@ -555,12 +555,15 @@ import (
 
 	ashape "example.com/vgen/gen/a/shape"
 	bshape "example.com/vgen/gen/b/shape"
+	clib "example.com/vgen/gen/c/v2"
 )
 
 func MkA() *ashape.T           { return &ashape.T{S: "a"} }
 func UseA(v *ashape.T) string  { return "A:" + v.S }
 func MkB() *bshape.T           { return &bshape.T{N: 7} }
 func UseB(v *bshape.T) float64 { return float64(v.N) }
+func MkC() *clib.T             { return &clib.T{B: true} }
+func UseC(v *clib.T) bool      { return v.B }
 func Show(v interface{}) string { return fmt.Sprint(v) }
 '''
 
@@ -583,6 +586,13 @@ func ExtA(x *Exec, conc int) ([]string, error) {
 func ExtB(x *Exec, conc int) ([]string, error) {
 	var out float64
 	err := cff.Flow(x.Ctx, cff.Params(MkB()), cff.Results(&out), cff.Task(UseB))
+	return []string{Show(out)}, err
+}
+
+// a package whose name (lib) is not the last element of its import path (.../c/v2)
+func ExtC(x *Exec, conc int) ([]string, error) {
+	var out bool
+	err := cff.Flow(x.Ctx, cff.Params(MkC()), cff.Results(&out), cff.Task(UseC))
 	return []string{Show(out)}, err
 }
 '''
@@ -628,6 +638,7 @@ def render_package(flows, ntypes, variants=True):
         # types from packages the cff file does not import, with colliding package names
         files["a/shape/shape.go"] = "package shape\n\ntype T struct{ S string }\n"
         files["b/shape/shape.go"] = "package shape\n\ntype T struct{ N int }\n"
+        files["c/v2/lib.go"] = "package lib\n\ntype T struct{ B bool }\n"
         files["exthelpers.go"] = EXT_HELPERS
         files["flowsext.go"] = EXT_FLOWS
     return files
